@@ -17,7 +17,7 @@ def run(ctx):
     quick = ctx.tier == "quick"
     ctx.build_harness()
     ctx.tlc_must_pass("MC_Decoder", "MC_Decoder_q" if quick else "MC_Decoder_t", timeout=3000)
-    fams = ["corpus", "corrupt", "random", "alphabet", "adversarial", "splice"]
+    fams = ["corpus", "corrupt", "random", "alphabet", "adversarial", "splice", "meta"]
     cov = deccheck.run_decoder_traces(ctx, fams, 3000 if quick else 60000, KINDS,
                                       "decoder safety/prefix/outcome mismatch")
     mc = ctx.mc[-1]
